@@ -157,6 +157,26 @@ def run_case(case):
                 geo = sum(beta ** k for k in range(T - t))
                 cmp(out[t], a_ * base[t] + b_ * geo, f"a={a_}, b={b_}, beta={beta}, period {t}", scale=max(a_, 1.0) + abs(b_) * geo / (1 + np.abs(base[t]).max()))
             add("law_affine")
+            # the variant made with the public Model.replace from ONE base model object; the base is
+            # solved AFTER the variant exists (a replace that touched its base would show here)
+            if case.get("index", 0) % 3 != 2:
+                m_base = dsl.build_lcm_model(desc)
+                u2 = dsl.build_lcm_model(d2).functions["utility"]
+                m_var = m_base.replace(functions={**m_base.functions, "utility": u2})
+                m_hor = m_base.replace(n_periods=T)  # a second derived model that must equal the base
+                f_v, _ = pipeline.get_lcm_function(m_var, "solve")
+                out_r = pipeline.to_np_list(f_v(dsl.lcm_params(params)))
+                f_b0, _ = pipeline.get_lcm_function(m_base, "solve")
+                base_r = pipeline.to_np_list(f_b0(dsl.lcm_params(params)))
+                f_h, _ = pipeline.get_lcm_function(m_hor, "solve")
+                hor_r = pipeline.to_np_list(f_h(dsl.lcm_params(params)))
+                for t in range(T):
+                    geo = sum(beta ** k for k in range(T - t))
+                    sc = max(a_, 1.0) + abs(b_) * geo / (1 + np.abs(base[t]).max())
+                    cmp(out_r[t], a_ * base_r[t] + b_ * geo, f"variant made by Model.replace, base solved afterwards: a={a_}, b={b_}, period {t}", scale=sc)
+                    cmp(base_r[t], base[t], f"base model solved after Model.replace made a variant of it vs the same specification built alone, period {t}")
+                    cmp(hor_r[t], base[t], f"base.replace(n_periods=same) vs the same specification built alone, period {t}")
+                add("law_affine_via_model_replace")
             # the same law through PARAMETERS on one pair of function objects: utility is written as
             # ua * (u) + ub; the functions are called with (1, 0), the params mapping is edited in
             # place to (a, b) and the same objects are called again. solve: V' = a V + b S_t;
